@@ -365,7 +365,13 @@ func unop(fr *frame, instr *ssa.UnOp, x value) value {
 	case token.ARROW:
 		return chanRecv(fr, x, instr.X.Type().Underlying().(*types.Chan).Elem(), instr.CommaOk)
 	case token.MUL:
-		return load(mustDeref(instr.X.Type()), derefCheck(x))
+		addr := derefCheck(x)
+		if fr.i.watched != nil {
+			if name, ok := fr.i.watched[addr]; ok {
+				fr.i.noteCellAccess(fr, addr, name, false)
+			}
+		}
+		return load(mustDeref(instr.X.Type()), addr)
 	case token.NOT:
 		if s, ok := x.(sym); ok {
 			return mkval(Not(s.t), types.Bool)
